@@ -369,6 +369,15 @@ def parseRecipeO (shuffle : Nat → List (StdKey × Span) → List (StdKey × Sp
                     | some p => some p
                     | none => r.panic }
 
+/-- `CooklangParser::parse_metadata` over the re-enumerating fold -/
+def parseMetadataO (shuffle : Nat → List (StdKey × Span) → List (StdKey × Span)) (env : Env) (input : Str) :
+    AnalysisResult α :=
+  let pe := pullMetaEvents (α := α) env.cs env.ext input
+  let r := parseEventsO shuffle env input pe.1.toList
+  { r with panic := match pe.2 with
+                    | some p => some p
+                    | none => r.panic }
+
 /-- same diagnostics, same panic flag, outputs equal up to the order of the map entries -/
 def ResRel (r r' : AnalysisResult α) : Prop :=
   r.diags = r'.diags ∧ r.panic = r'.panic ∧
